@@ -51,6 +51,12 @@ pub(crate) struct SweepOpts {
     /// run a timer round after every delivery that changed the state (inside the observed step)
     pub tick_after_change: bool,
     pub honest_control: bool,
+    /// after a delivery that changed the state without a ban: drop the honest twin of the mutant
+    /// from the queue and run the honest history on to quiescence before the view is taken
+    pub follow_up: bool,
+    /// the view can only change when the client's light print (peers + meta records) changed:
+    /// skip recomputing it otherwise
+    pub view_only_on_change: bool,
     /// only home mutants with index % chunk.1 == chunk.0 (work splitting)
     pub chunk: (usize, usize),
 }
@@ -63,6 +69,7 @@ pub(crate) struct Stats {
     pub state_changes: u64,
     pub panics: u64,
     pub homes: u64,
+    pub follow_ups: u64,
 }
 
 pub(crate) type CrossMsg = (Proto, String, Bytes);
@@ -123,9 +130,26 @@ pub(crate) fn sweep_scenario(
                     });
                     panic = r2.err();
                 }
+                if opts.follow_up && ctx.kind == Kind::HomeMutant && bans.is_empty() && panic.is_none() {
+                    if let Some(h) = ctx.honest {
+                        if let Some(pos) = sim.queue.iter().position(|m| &m.data == h) {
+                            sim.queue.remove(pos);
+                        }
+                    }
+                    stats.follow_ups += 1;
+                    let r3 = panics::catch(|| {
+                        sim.converge(40);
+                    });
+                    panic = r3.err();
+                    let _ = sim.c().out.take_bans();
+                }
             }
             if panic.is_none() {
-                view_after = view(sim);
+                view_after = if opts.view_only_on_change && !rebuild {
+                    view_before.to_owned()
+                } else {
+                    view(sim)
+                };
                 if view_after != view_before {
                     stats.view_changes += 1;
                 }
